@@ -40,9 +40,13 @@ Expected(r) == SumSeq([k \in 1..Len(r.terms) |-> TermValue(r, r.terms[k])])
 AxisRow(name) == CASE name = "X" -> 0 [] name = "Y" -> 1 [] name = "Z" -> 2
 Coef(r, name, c) == IF name \notin Axes THEN 0
                     ELSE IF HasMat(r) THEN Row(r, AxisRow(name))[c] ELSE (IF AxisRow(name) = c - 1 THEN 1 ELSE 0)
-DX(r, t) == t[2] * Coef(r, t[1], 1)
-DY(r, t) == t[2] * Coef(r, t[1], 2)
-DZ(r, t) == t[2] * Coef(r, t[1], 3)
+\* the caller's derivative seeds: seed[j][c] is slot c of the derivative carried by input axis j (the unit axes if absent);
+\* slot c of the result is sum_j (d value / d axis j) * seed[j][c]
+Seed(r, j, c) == IF "seeds" \in DOMAIN r THEN r.seeds[j][c] ELSE (IF j = c THEN 1 ELSE 0)
+DSlot(r, t, c) == t[2] * (Coef(r, t[1], 1) * Seed(r, 1, c) + Coef(r, t[1], 2) * Seed(r, 2, c) + Coef(r, t[1], 3) * Seed(r, 3, c))
+DX(r, t) == DSlot(r, t, 1)
+DY(r, t) == DSlot(r, t, 2)
+DZ(r, t) == DSlot(r, t, 3)
 
 IsInt(b, v) == IsSmallInt(b) /\ IntOf(b) = v
 MapNames(r) == {r.vars[k][1] : k \in 1..Len(r.vars)}
